@@ -80,6 +80,8 @@ def spell(t, cwd, style, dirs):
 
 class Runner(hist.HistoryRunner):
     execset_prop = "C13"
+    own_prop = "C13"
+    claims = ('adddo', 'rmdo')
 
     def apply(self, op):
         k = op[0]
